@@ -200,7 +200,10 @@ def hash_file(
         if meta is not None and hash_info is not None and hash_info.name == name:
             return meta, hash_info
 
-    size = info.get("size") if info else None
+    # NOTE: stat before reading, so that the hash gets saved for the file as it
+    # was when we started hashing it and not for whatever is there afterwards.
+    info = info or fs.info(path)
+    size = info.get("size")
     _callback = callback
     # never initialize callback if it's never going to be used
     if size and size < LargeFileHashingCallback.LARGE_FILE_SIZE:
